@@ -93,7 +93,9 @@ def tlc(sdir, module, cfg, workdir, env=None, workers=8, timeout=900, heap="6g",
     out = p.stdout + p.stderr
     shutil.rmtree(md, ignore_errors=True)
     if p.returncode != 0 or "Error:" in out:
-        raise Infra("TLC failed on %s/%s (exit %d):\n%s" % (module, cfg, p.returncode, out[-4000:]))
+        # keep the first error lines (a long counterexample trace would push them out of the tail)
+        heads = [l for l in out.splitlines() if l.startswith("Error:") or "is violated" in l][:6]
+        raise Infra("TLC failed on %s/%s (exit %d): %s\n%s" % (module, cfg, p.returncode, " | ".join(heads), out[-3000:]))
     res = dict(out=out, generated=0, distinct=0, depth=0, wall=time.time() - t0, cmd=" ".join(cmd[6:]))
     m = re.search(r"(\d+) states generated, (\d+) distinct states found", out)
     if m:
